@@ -788,7 +788,13 @@ func genHostsFile(rng *rand.Rand) []byte {
 		// the first Read returned depends on the fragmentation
 		sb.WriteString(pick(rng, "\xef\xbb\xbf", "\xef\xbb\xbf", "\xef\xbb", "\xef", "\xff\xfe", "\xfe\xff", "\x00", "\x1f\x8b", "\xef\xbb\xbf\xef\xbb\xbf", "\r\n", "\n"))
 	}
+	if t, ok := dictTok(rng); ok && rng.IntN(30) == 0 {
+		sb.WriteString(t)
+	}
 	nl := pick(rng, 0, 1, 1, 2, 3, 4, 5, 6, 8, 12)
+	if v, ok := dictInt(rng, 0, 40); ok && rng.IntN(20) == 0 {
+		nl = int(v)
+	}
 	for i := 0; i < nl; i++ {
 		var line string
 		switch rng.IntN(12) {
